@@ -12,6 +12,7 @@ import (
 	"time"
 
 	"github.com/specterops/dawgs/cardinality"
+	"github.com/specterops/dawgs/graph"
 )
 
 // C13: ID-set providers (cardinality/roaring32.go, roaring64.go, lock.go) against the Lean model Dawgs.C13.
@@ -20,6 +21,8 @@ import (
 //   c13     model tie + monitor: all ordered receiver/operand pairs of {b32,b64,ts32,ts64} with matching width
 //   x13     monitor only: what the model does not characterise exactly — chunks that have been completely full (run
 //           containers) under iterate-while-remove, and the aftermath of roaring's container-sharing native Xor
+//   heap13  model tie (Lean suite c13heap: roaring CONTAINER IDENTITY, Model/C13Roaring) + monitor: plain bitmaps, add/remove/
+//           xor/slice only — receiver and operand keep being used after the native Xor, so the aliasing it creates is compared
 //   conc13  monitor + model: N goroutines on one wrapper, commutative op mixes (thorough tier; -race variant)
 //
 // Line protocol: see lean/Driver/C13.lean. Every call runs in its own goroutine; a call whose goroutine is parked
@@ -31,6 +34,7 @@ func init() {
 	register("c13", c13Suite{"c13"})
 	register("x13", c13Suite{"x13"})
 	register("conc13", c13Suite{"conc13"})
+	register("heap13", c13Suite{"heap13"})
 }
 
 // ---------------------------------------------------------------------------------------------- runner
@@ -444,6 +448,183 @@ func c13Step[T number](r *c13Runner, m map[string]*c13Prov[T], bits int, t []str
 		np := &c13Prov[T]{d: c, wrapped: src.wrapped}
 		m[t[1]] = np
 		return "ok " + c13Obs(np), true
+	case len(t) == 5 && t[0] == "eachcall":
+		// eachcall <x> <k> remove|cadd|add|contains <y>: x.Each(func(v){ y.M(v); return visited < k })  (k = 0: all); y is
+		// ANOTHER provider: a clone of x, an operand, an unrelated wrapper — the delegate runs while x's lock is held
+		x, y := get(t[1]), get(t[4])
+		if x == nil {
+			return "", false
+		}
+		k, err := strconv.Atoi(t[2])
+		if y == nil || x == y || err != nil || k < 0 {
+			return "bad-op", true
+		}
+		if x.dead || y.dead {
+			return "deadlock", true
+		}
+		var call func(v T)
+		switch t[3] {
+		case "remove":
+			call = func(v T) { y.d.Remove(v) }
+		case "cadd":
+			call = func(v T) { y.d.CheckedAdd(v) }
+		case "add":
+			call = func(v T) { y.d.Add(v) }
+		case "contains":
+			call = func(v T) { y.d.Contains(v) }
+		default:
+			return "bad-op", true
+		}
+		r.stats.Inc("op.eachcall." + c13KindName(x) + "/" + c13KindName(y))
+		if !c13Call(func() {
+			seen := 0
+			x.d.Each(func(v T) bool {
+				call(v)
+				seen++
+				return k == 0 || seen < k
+			})
+		}) {
+			if x.wrapped {
+				x.dead = true
+			}
+			r.stats.Inc("deadlock.eachcall")
+			return "deadlock", true
+		}
+		return "ok " + c13Obs(x) + " | " + c13Obs(y), true
+	case len(t) == 2 && t[0] == "toids":
+		// graph.DuplexToGraphIDs on a quiescent provider
+		x := get(t[1])
+		if x == nil {
+			return "", false
+		}
+		if x.dead {
+			return "deadlock", true
+		}
+		var ids []graph.ID
+		if !c13Call(func() { ids = graph.DuplexToGraphIDs(x.d) }) {
+			return "deadlock", true
+		}
+		vals := make([]uint64, len(ids))
+		for i, id := range ids {
+			vals[i] = id.Uint64()
+		}
+		if !sort.SliceIsSorted(vals, func(i, j int) bool { return vals[i] < vals[j] }) {
+			return fmt.Sprintf("unsorted-ids %v", vals), true
+		}
+		r.stats.Inc("op.toids")
+		return fmt.Sprintf("%d %s", len(vals), c13Rle(vals)), true
+	case len(t) == 4 && t[0] == "toidsrace":
+		x := get(t[1])
+		if x == nil {
+			return "", false
+		}
+		lo, e1 := strconv.ParseUint(t[2], 10, 64)
+		n, e2 := strconv.ParseUint(t[3], 10, 32)
+		if e1 != nil || e2 != nil || x.dead || !x.wrapped || lo == 0 || (bits == 32 && lo+n >= 1<<32) {
+			return "bad-op", true
+		}
+		return c13ToIDsRace(r, x, lo, n), true
+	case len(t) == 5 && t[0] == "caddrace":
+		x := get(t[1])
+		if x == nil {
+			return "", false
+		}
+		lo, e1 := strconv.ParseUint(t[2], 10, 64)
+		n, e2 := strconv.ParseUint(t[3], 10, 32)
+		g, e3 := strconv.Atoi(t[4])
+		if e1 != nil || e2 != nil || e3 != nil || g < 1 || g > 64 || x.dead || !x.wrapped || (bits == 32 && lo+n >= 1<<32) {
+			return "bad-op", true
+		}
+		// g goroutines walk the same value sequence: every value is probed by all of them at about the same time
+		var total atomic.Int64
+		var wg sync.WaitGroup
+		start := make(chan struct{})
+		for i := 0; i < g; i++ {
+			wg.Add(1)
+			go func() {
+				defer wg.Done()
+				<-start
+				c := 0
+				for k := uint64(0); k < n; k++ {
+					if x.d.CheckedAdd(T(lo + k)) {
+						c++
+					}
+				}
+				total.Add(int64(c))
+			}()
+		}
+		close(start)
+		wg.Wait()
+		r.stats.Inc("caddrace.runs")
+		return fmt.Sprintf("ok trues=%d %s", total.Load(), c13Obs(x)), true
+	case len(t) == 3 && t[0] == "kindor":
+		// graph.KindBitmaps.AddDuplexToKind / graph.ThreadSafeKindBitmap.Or with caller-provided providers (64 bit only)
+		x, y := get(t[1]), get(t[2])
+		if x == nil {
+			return "", false
+		}
+		if y == nil || bits != 64 || x.dead || y.dead {
+			return "bad-op", true
+		}
+		dx, dy := any(x.d).(cardinality.Duplex[uint64]), any(y.d).(cardinality.Duplex[uint64])
+		var a, b []uint64
+		if !c13Call(func() {
+			kind := graph.StringKind("K")
+			kb := graph.KindBitmaps{}
+			kb.AddDuplexToKind(dx, kind)
+			kb.AddDuplexToKind(dy, kind)
+			a = kb.Get(kind).Slice()
+			tsk := graph.NewThreadSafeKindBitmap()
+			tsk.Or(kind, dx)
+			tsk.Or(kind, dy)
+			b = tsk.Get(kind).Slice()
+		}) {
+			return "deadlock", true
+		}
+		if c13Rle(a) != c13Rle(b) {
+			return fmt.Sprintf("kindbitmaps-disagree %s %s", c13Rle(a), c13Rle(b)), true
+		}
+		r.stats.Inc("op.kindor")
+		return fmt.Sprintf("%d %s | %s | %s", len(a), c13Rle(a), c13Obs(x), c13Obs(y)), true
+	case len(t) >= 3 && t[0] == "comm":
+		// comm <v> or:a,b and:c …  (commutative.go)
+		first := strings.SplitN(t[2], ":", 2)
+		if len(first) != 2 || get(strings.Split(first[1], ",")[0]) == nil {
+			return "", false
+		}
+		vs, ok := c13ParseVals[T](t[1:2], bits)
+		if !ok {
+			return "bad-op", true
+		}
+		var cd cardinality.CommutativeDuplexes[T]
+		for _, tok := range t[2:] {
+			kv := strings.SplitN(tok, ":", 2)
+			if len(kv) != 2 {
+				return "bad-op", true
+			}
+			var ds []cardinality.Duplex[T]
+			for _, n := range strings.Split(kv[1], ",") {
+				p := get(n)
+				if p == nil || p.dead {
+					return "bad-op", true
+				}
+				ds = append(ds, p.d)
+			}
+			switch kv[0] {
+			case "or":
+				cd.Or(cardinality.CommutativeOr(ds[0]).Or(ds[1:]...))
+			case "and":
+				cd.And(cardinality.CommutativeOr(ds...))
+			default:
+				return "bad-op", true
+			}
+		}
+		var res bool
+		if !c13Call(func() { res = cd.Contains(vs[0]) }) {
+			return "deadlock", true
+		}
+		r.stats.Inc("op.comm")
+		return fmt.Sprintf("%v", res), true
 	case len(t) == 3 && t[0] == "nd":
 		p := get(t[2])
 		if p == nil {
@@ -553,6 +734,70 @@ func c13Step[T number](r *c13Runner, m map[string]*c13Prov[T], bits int, t []str
 		return c13Conc(r, m, p, bits, t[2:]), true
 	}
 	return "", false
+}
+
+// toidsrace <x> <lo> <n>: a writer slides a window over wrapper x (Add(lo+k); Remove(lo+k-8)) while a reader keeps
+// converting x with graph.DuplexToGraphIDs. Oracle for every conversion: no panic, strictly ascending (so no
+// duplicates), every ID was a member at some point of the run (initial content or one of the window values; 0 never is).
+func c13ToIDsRace[T number](r *c13Runner, x *c13Prov[T], lo, n uint64) string {
+	initial := map[uint64]struct{}{}
+	for _, v := range x.d.Slice() {
+		initial[uint64(v)] = struct{}{}
+	}
+	var done atomic.Bool
+	var wg sync.WaitGroup
+	bad, conversions := 0, 0
+	detail := ""
+	var pan any
+	wg.Add(2)
+	go func() {
+		defer wg.Done()
+		defer done.Store(true)
+		for k := uint64(0); k < n; k++ {
+			x.d.Add(T(lo + k))
+			if k >= 8 {
+				x.d.Remove(T(lo + k - 8))
+			}
+		}
+	}()
+	go func() {
+		defer wg.Done()
+		defer func() {
+			if p := recover(); p != nil {
+				pan = p
+			}
+		}()
+		check := func() {
+			ids := graph.DuplexToGraphIDs(x.d)
+			conversions++
+			prev := uint64(0)
+			for i, id := range ids {
+				u := id.Uint64()
+				_, wasInitial := initial[u]
+				if (i > 0 && u <= prev) || !(wasInitial || (u >= lo && u < lo+n)) {
+					if bad == 0 {
+						detail = fmt.Sprintf("ids[%d]=%d", i, u)
+					}
+					bad++
+					return
+				}
+				prev = u
+			}
+		}
+		for !done.Load() {
+			check()
+		}
+		check()
+	}()
+	wg.Wait()
+	if pan != nil {
+		panic(pan)
+	}
+	r.stats.Inc("toidsrace.runs")
+	if bad > 0 {
+		return fmt.Sprintf("ok bad=%d %s first=%s", bad, c13Obs(x), detail)
+	}
+	return fmt.Sprintf("ok bad=0 %s", c13Obs(x))
 }
 
 // pairs <x> <o> <lo> <n>: a writer inserts the pairs (lo+2k, lo+2k+1) into wrapper o, each pair by ONE o.Add call (so
@@ -907,7 +1152,36 @@ func (g *c13Gen) randomCase(bits int, rk, ok string, big bool) {
 			roles = append(roles, cn)
 			name[cn] = cn
 			kind[cn] = kind[x]
+		case c < 19 && r.Chance(1, 2):
+			// delegate of Each calling another provider; consumers of a provider in graph/types.go
+			y := Pick(r, roles)
+			switch {
+			case y != x && r.Chance(2, 3):
+				g.line("eachcall %s %d %s %s", name[x], r.Intn(4), Pick(r, []string{"remove", "cadd", "add", "contains"}), name[y])
+			case bits == 64 && r.Bool():
+				g.line("kindor %s %s", name[x], name[y])
+			default:
+				g.line("toids %s", name[x])
+			}
 		case c < 19:
+			if r.Bool() {
+				// commutative.go: membership over or/and groups of the case's providers
+				toks := []string{}
+				for k := 1 + r.Intn(3); k > 0; k-- {
+					grp := Pick(r, []string{"or", "or", "and"})
+					if len(toks) == 0 {
+						grp = "or"
+					}
+					n1, n2 := name[Pick(r, roles)], name[Pick(r, roles)]
+					if r.Bool() {
+						toks = append(toks, grp+":"+n1)
+					} else {
+						toks = append(toks, grp+":"+n1+","+n2)
+					}
+				}
+				g.line("comm %d %s", Pick(r, pool), strings.Join(toks, " "))
+				break
+			}
 			g.line("nd %s %s", Pick(r, c13Ops), name[x])
 		default:
 			if r.Chance(1, 6) {
@@ -1093,6 +1367,27 @@ func (c13Suite) genMain(g *c13Gen, tier string) {
 		g.line("slice y")
 		g.line("or z x")
 		g.line("card z")
+		// delegates of Each that call OTHER providers (clone of the receiver, an unrelated wrapper, an operand): the
+		// receiver's lock is held, the other provider has its own — every call returns
+		g.begin(fmt.Sprintf("nested-each ts%d", bits))
+		g.line("new x ts%d", bits)
+		g.line("add x 1 2 3 65536 65537")
+		g.line("clone s x")
+		g.line("eachcall s 0 remove x")
+		g.line("add x 1 2 70000")
+		g.line("eachcall x 0 cadd s")
+		g.line("eachcall x 2 contains s")
+		g.line("new u ts%d", bits)
+		g.line("eachcall x 0 add u")
+		g.line("eachcall u 1 remove x")
+		g.line("new o b%d", bits)
+		g.line("add o 2 70000 9")
+		g.line("eachcall o 0 remove x")
+		g.line("eachcall x 0 cadd o")
+		g.line("clone s2 s")
+		g.line("eachcall s2 0 add s")
+		g.line("toids x")
+		g.line("toids o")
 		g.begin(fmt.Sprintf("abba ts%d", bits))
 		g.line("new a ts%d", bits)
 		g.line("new b ts%d", bits)
@@ -1211,6 +1506,86 @@ func (c13Suite) genAlias(g *c13Gen, tier string) {
 	}
 }
 
+func indexOf(xs []string, x string) int {
+	for i, v := range xs {
+		if v == x {
+			return i
+		}
+	}
+	return 0
+}
+
+// plain bitmaps that keep being used after native in-place Xors: tied to the container-identity model (Lean suite c13heap)
+func (c13Suite) genHeap(g *c13Gen, tier string) {
+	r := g.rng
+	n, dense := 300, 12
+	if tier == "thorough" {
+		n, dense = 12000, 200
+	}
+	for i := 0; i < n+dense; i++ {
+		bits := 32
+		if r.Bool() {
+			bits = 64
+		}
+		big := i >= n && bits == 32
+		g.begin(fmt.Sprintf("heap b%d dense=%v", bits, big))
+		names := []string{"a", "b", "c"}[:2+r.Intn(2)]
+		for _, nm := range names {
+			g.line("new %s b%d", nm, bits)
+		}
+		// small universe: few keys, few low parts, so that keys are shared / missing / emptied all the time
+		var keys []uint64
+		if bits == 64 {
+			for _, k := range []uint64{0, 1, 2, 3, 5} {
+				keys = append(keys, k<<32, k<<32+65536)
+			}
+		} else {
+			for _, k := range []uint64{0, 1, 2, 3, 5} {
+				keys = append(keys, k<<16)
+			}
+		}
+		val := func() uint64 { return Pick(r, keys) + uint64(r.Intn(4)) }
+		for _, nm := range names {
+			vs := make([]uint64, 1+r.Intn(6))
+			for j := range vs {
+				vs[j] = val()
+			}
+			g.line("add %s %s", nm, c13Join(vs))
+		}
+		if big {
+			// around the array/bitmap container threshold: array ⊕ bitmap is where the 32-bit ixor updates the operand
+			for k := 1 + r.Intn(2); k > 0; k-- {
+				g.line("addrange %s %d %d %d", Pick(r, names), Pick(r, keys)+uint64(r.Intn(50)), Pick(r, []int{4090, 4096, 4097, 4100, 4300}), Pick(r, []int{1, 1, 2}))
+			}
+		}
+		nops := 6 + r.Intn(12)
+		if big {
+			nops = 4 + r.Intn(5)
+		}
+		for j := 0; j < nops; j++ {
+			x := Pick(r, names)
+			switch c := r.Intn(10); {
+			case c < 4:
+				y := Pick(r, names)
+				if y == x && r.Chance(4, 5) {
+					y = names[(r.Intn(len(names)-1)+1+indexOf(names, x))%len(names)] // mostly a distinct operand
+				}
+				g.line("xor %s %s", x, y)
+			case c < 7:
+				g.line("add %s %d", x, val())
+			case c < 9:
+				g.line("remove %s %d", x, val())
+			default:
+				g.line("card %s", x)
+			}
+			for _, nm := range names {
+				g.line("slice %s", nm)
+			}
+		}
+		g.stats.Inc("heap_cases")
+	}
+}
+
 // N goroutines on one wrapper; op mixes whose result does not depend on the order
 func (c13Suite) genConc(g *c13Gen, tier string) {
 	r := g.rng
@@ -1222,6 +1597,33 @@ func (c13Suite) genConc(g *c13Gen, tier string) {
 	np := 6
 	if tier == "thorough" {
 		np = 40
+	}
+	// consumers and contention: conversions under a concurrent writer; the same values probed by several goroutines
+	nr := 4
+	if tier == "thorough" {
+		nr = 40
+	}
+	for i := 0; i < nr; i++ {
+		bits := 32
+		if r.Bool() {
+			bits = 64
+		}
+		base := uint64(1+r.Intn(3)) << 16
+		if bits == 64 && r.Bool() {
+			base += uint64(1+r.Intn(3)) << 32
+		}
+		g.begin(fmt.Sprintf("toidsrace ts%d", bits))
+		g.line("new x ts%d", bits)
+		g.line("add x %d %d %d", base+uint64(40000+r.Intn(100)), base+uint64(50000+r.Intn(100)), base+uint64(60000))
+		g.line("toids x")
+		g.line("toidsrace x %d %d", base+uint64(1+r.Intn(50)), 15000+r.Intn(15000))
+		g.line("toids x")
+		g.stats.Inc("toidsrace_cases")
+		g.begin(fmt.Sprintf("caddrace ts%d", bits))
+		g.line("new x ts%d", bits)
+		g.line("addrange x %d %d 3", base+uint64(r.Intn(10)), 200+r.Intn(200))
+		g.line("caddrace x %d %d %d", base, 8000+r.Intn(8000), 2+r.Intn(7))
+		g.stats.Inc("caddrace_cases")
 	}
 	for i := 0; i < np; i++ {
 		bits := 32
@@ -1317,5 +1719,7 @@ func (s c13Suite) Gen(rng *Rng, tier string, w *bufio.Writer, stats *Stats) {
 		s.genAlias(g, tier)
 	case "conc13":
 		s.genConc(g, tier)
+	case "heap13":
+		s.genHeap(g, tier)
 	}
 }
